@@ -12,7 +12,9 @@
 (***************************************************************************)
 EXTENDS Integers
 
-CONSTANTS Mrzs, OtherMrz
+CONSTANTS Mrzs, OtherMrz,
+          PositionBound   \* TRUE (as built): RND.IC is compared with the first, RND.IFD with the second slot of the answer;
+                          \* FALSE: "both challenges are echoed, in either order"
 
 Sources == {"chip",        \* whatever the chip answers (a cryptogram, or 6300 if it rejects the terminal)
             "replay",      \* the chip's genuine answer from an earlier run (other randoms)
@@ -20,6 +22,8 @@ Sources == {"chip",        \* whatever the chip answers (a cryptogram, or 6300 i
             "mutated",     \* a genuine answer with some bit changed
             "wrongifd",    \* right keys, RND.IFD not echoed   (a defective / dishonest key holder)
             "wrongic",     \* right keys, RND.IC not echoed
+            "reflect",     \* the terminal's OWN cryptogram sent straight back (no key needed): a valid MAC under the
+                           \* terminal's keys over RND.IFD || RND.IC || K.IFD - both challenges, in the command's order
             "short", "long",   \* 39 / 41 octets
             "status"}      \* an error status instead of data
 
@@ -54,6 +58,7 @@ Answer ==
     [] source = "mutated"  -> Cryptogram(40, K("junk"), RndIc, RndIfd, KIc)
     [] source = "wrongifd" -> Cryptogram(40, K(chipMrz), RndIc, "other", KIc)
     [] source = "wrongic"  -> Cryptogram(40, K(chipMrz), "other", RndIfd, KIc)
+    [] source = "reflect"  -> Cryptogram(40, K(termMrz), RndIfd, RndIc, KIfd)
     [] source = "short"    -> Cryptogram(39, K(chipMrz), RndIc, RndIfd, KIc)
     [] source = "long"     -> Cryptogram(41, K(chipMrz), RndIc, RndIfd, KIc)
     [] source = "status"   -> NoMsg
@@ -61,8 +66,8 @@ Answer ==
 \* the terminal's checks (bac.processResponse): length, MAC under its own keys, both echoes
 TermAccepts(msg) == /\ msg.len = 40
                     /\ msg.key = K(termMrz)
-                    /\ msg.b = RndIfd
-                    /\ msg.a = RndIc
+                    /\ IF PositionBound THEN msg.b = RndIfd /\ msg.a = RndIc
+                       ELSE {msg.a, msg.b} = {RndIc, RndIfd}
 
 Run == /\ phase = "start" /\ phase' = "done"
        /\ chipAccepted' = ChipVerifies
